@@ -656,10 +656,9 @@ int main(int argc, char **argv)
         VSA_CHECK(freed_by_waiter == 1, "the waiter of the last phase did not free the object");
     } else {
         vs_note("apiCall free %s", isfut ? "F0" : "E0");
-        if (isfut)
-            ABT_OK(ABT_future_free(&F0));
-        else
-            ABT_OK(ABT_eventual_free(&E0));
+        int rcf = isfut ? ABT_future_free(&F0) : ABT_eventual_free(&E0);
+        vs_note("apiRet free %s %s", isfut ? "F0" : "E0", rcname(rcf, b));
+        VSA_CHECK(rcf == ABT_SUCCESS, "ABT_%s_free returned %d", isfut ? "future" : "eventual", rcf);
     }
     sc_stop_streams();
     ABT_finalize();
